@@ -84,7 +84,24 @@ CertAsRead(text) == IF Faithful(text) THEN CertOfTokens(TokensAsRead(text)) ELSE
 
 SetToSeq3(S) == SelectSeq(<<"errtok", "unbalanced", "brackets">>, LAMBDA x : x \in S)
 
+---------------------------------------------------------------------------
+(* Features of the text as read -- implementation-shaped, exported only so   *)
+(* that a finding on the unchanged tree can be keyed to the input shape that *)
+(* triggers it; they decide nothing.                                         *)
+(*   lone-hash-eof  the last line the scanner gets is exactly `#` without a  *)
+(*                  newline                                                  *)
+(*   esc-high       an escape character directly followed by a byte >= 0x80  *)
+(*   nul            the text has a NUL byte                                  *)
+HighChars == {ChrTable[b] : b \in 128..255}
+Features(text) ==
+  LET sl == IncludeAsRead(text)
+  IN  (IF Len(sl) > 0 /\ sl[Len(sl)].sys /\ sl[Len(sl)].txt = <<"#">> THEN {"lone-hash-eof"} ELSE {})
+      \cup (IF \E i \in 1..(Len(text) - 1) : text[i] = "_" /\ text[i + 1] \in HighChars THEN {"esc-high"} ELSE {})
+      \cup (IF \E i \in 1..Len(text) : text[i] = NUL THEN {"nul"} ELSE {})
+FeatSeq(S) == SelectSeq(<<"lone-hash-eof", "esc-high", "nul">>, LAMBDA x : x \in S)
+
 \* what is exported for one text
 Judge(bytes) == LET text == Chars(bytes)
-                IN  [b |-> bytes, c |-> SetToSeq3(Cert(text)), r |-> SetToSeq3(CertAsRead(text))]
+                IN  [b |-> bytes, c |-> SetToSeq3(Cert(text)), r |-> SetToSeq3(CertAsRead(text)),
+                     f |-> FeatSeq(Features(text))]
 =============================================================================
